@@ -359,14 +359,72 @@ package fr
 //@ prelude frint
 //@ ensures I(result) == fval(I(z))
 
+// Inverse: binary extended Euclid on Montgomery representatives. Partial correctness (the loop `for {}` ends only through
+// its two returns; termination is not proved). With X the input representative, the invariant is
+//   r*X == u*R^2 (mod q)  and  s*X == v*R^2 (mod q),  r, s < q,
+// preserved by the halving steps (q is odd) and by the subtraction steps; at u == 1 resp. v == 1 the result satisfies
+// z*X == R^2 (mod q), i.e. z is the Montgomery form of the inverse. The products with X are the opaque lmul(.,X) of
+// spec/lmul.smt2 with linearity lemmas applied explicitly, so every obligation is linear arithmetic over the limbs.
 //@ func Element.Inverse
-//@ assumed bounded stand-in: binary extended Euclid not yet under a discharged contract; differential check against math/big.ModInverse (C15 thorough)
-//@ prelude frint
+//@ props C15
+//@ prelude frint lmul
+//@ let X = I(*x)
 //@ requires I(*x) < R_MOD
 //@ ensures result == z && I(*z) < R_MOD
 //@ ensures I(old(*x)) == 0 ==> I(*z) == 0
 //@ ensures I(old(*x)) != 0 ==> (I(*z) * I(old(*x))) % R_MOD == RSQ
 //@ modifies *z
+//@ macro JR() = ((lmul(I(r), X) - I(u) * RSQ) % R_MOD == 0)
+//@ macro JS() = ((lmul(I(s), X) - I(v) * RSQ) % R_MOD == 0)
+//@ loop 0 invariant I(r) < R_MOD && I(s) < R_MOD && JR() && JS()
+//@ loop 1 invariant I(r) < R_MOD && I(s) < R_MOD && JR() && JS()
+// v even: v = v/2, s = s/2 mod q
+//@ at loopbody 0: ghost S0 := I(s)
+//@ at loopbody 0: ghost V0 := I(v)
+//@ at store 20: assert@vh1 2 * I(v) == V0 && (2 * I(s) == S0 || 2 * I(s) == S0 + R_MOD) && I(s) < R_MOD
+//@ at store 20: assert@vh2 lm_dbl(I(s), X) && lm_add(S0, R_MOD, X) && lm_def(R_MOD, X)
+//@ at store 20: assert@vh3 JS()
+// u even: u = u/2, r = r/2 mod q
+//@ at loopbody 1: ghost R0 := I(r)
+//@ at loopbody 1: ghost U0 := I(u)
+//@ at store 32: assert@uh1 2 * I(u) == U0 && (2 * I(r) == R0 || 2 * I(r) == R0 + R_MOD) && I(r) < R_MOD
+//@ at store 32: assert@uh2 lm_dbl(I(r), X) && lm_add(R0, R_MOD, X) && lm_def(R_MOD, X)
+//@ at store 32: assert@uh3 JR()
+// v >= u: v = v - u, s = s - r mod q
+//@ at call Sub64 0: ghost Sa := I(s)
+//@ at call Sub64 0: ghost SA := s
+//@ at call Sub64 0: ghost Ra := I(r)
+//@ at call Sub64 0: ghost Ua := I(u)
+//@ at call Sub64 0: ghost Va := I(v)
+//@ at store 40: assert@vs0 Va >= Ua && (borrow == 0 || borrow == 1)
+//@ at store 40: assert@vs1a I(v) + Ua == Va
+//@ at store 37: assert@vst0 s[0] + r[0] == SA[0] + borrow * 18446744073709551616
+//@ at store 38: assert@vst1 s[0] + s[1] * 18446744073709551616 + r[0] + r[1] * 18446744073709551616 == SA[0] + SA[1] * 18446744073709551616 + borrow * 340282366920938463463374607431768211456
+//@ at store 39: assert@vst2 s[0] + s[1] * 18446744073709551616 + s[2] * 340282366920938463463374607431768211456 + r[0] + r[1] * 18446744073709551616 + r[2] * 340282366920938463463374607431768211456 == SA[0] + SA[1] * 18446744073709551616 + SA[2] * 340282366920938463463374607431768211456 + borrow * 6277101735386680763835789423207666416102355444464034512896
+//@ at store 40: assert@vs1b I(s) + Ra == Sa + borrow * 115792089237316195423570985008687907853269984665640564039457584007913129639936
+//@ at store 40: assert@vs2 lm_sub(Sa, Ra, X) && lm_add(Sa - Ra, R_MOD, X) && lm_def(R_MOD, X)
+//@ at store 40: assert@vs3 borrow == 0 ==> I(s) < R_MOD && JS()
+//@ at store 52: assert@vs4 I(s) == Sa - Ra + R_MOD && I(s) < R_MOD && JS()
+// v < u: u = u - v, r = r - s mod q
+//@ at call Sub64 8: ghost Sb := I(s)
+//@ at call Sub64 8: ghost RB := r
+//@ at call Sub64 8: ghost Rb := I(r)
+//@ at call Sub64 8: ghost Ub := I(u)
+//@ at call Sub64 8: ghost Vb := I(v)
+//@ at store 48: assert@us0 Ub > Vb && (borrow == 0 || borrow == 1)
+//@ at store 48: assert@us1a I(u) + Vb == Ub
+//@ at store 45: assert@ust0 r[0] + s[0] == RB[0] + borrow * 18446744073709551616
+//@ at store 46: assert@ust1 r[0] + r[1] * 18446744073709551616 + s[0] + s[1] * 18446744073709551616 == RB[0] + RB[1] * 18446744073709551616 + borrow * 340282366920938463463374607431768211456
+//@ at store 47: assert@ust2 r[0] + r[1] * 18446744073709551616 + r[2] * 340282366920938463463374607431768211456 + s[0] + s[1] * 18446744073709551616 + s[2] * 340282366920938463463374607431768211456 == RB[0] + RB[1] * 18446744073709551616 + RB[2] * 340282366920938463463374607431768211456 + borrow * 6277101735386680763835789423207666416102355444464034512896
+//@ at store 48: assert@us1b I(r) + Sb == Rb + borrow * 115792089237316195423570985008687907853269984665640564039457584007913129639936
+//@ at store 48: assert@us2 lm_sub(Rb, Sb, X) && lm_add(Rb - Sb, R_MOD, X) && lm_def(R_MOD, X)
+//@ at store 48: assert@us3 borrow == 0 ==> I(r) < R_MOD && JR()
+//@ at store 56: assert@us4 I(r) == Rb - Sb + R_MOD && I(r) < R_MOD && JR()
+// exits
+//@ at return 1: assert@ex1 I(u) == 1 && I(*z) == I(r) && lm_def(I(*z), X)
+//@ at return 1: assert@ex1b (lmul(I(*z), X) - RSQ) % R_MOD == 0
+//@ at return 2: assert@ex2 I(v) == 1 && I(*z) == I(s) && lm_def(I(*z), X)
+//@ at return 2: assert@ex2b (lmul(I(*z), X) - RSQ) % R_MOD == 0
 
 //@ func Element.Div
 //@ props C15
